@@ -388,6 +388,48 @@ def grad_histories(run, seed, tier):
                             break
 
 
+def leaf_root_histories(run, seed, tier):
+    """a LEAF that is also used as the root of backward (x.backward(), x.backward(g)) between ordinary sweeps: after any interleaving its .grad has exactly its shape and dtype
+    (0-d leaves included: NumPy turns the sum of two 0-d arrays into a scalar, which later in-place additions rebind instead of updating) and the accumulated value"""
+    import itertools
+    Tensor, F, nn, NF = synapgrad_modules()
+    alphabet = ("root", "root_g_other", "bw", "bw_other", "zero")
+    maxlen = 3 if tier == "quick" else 4
+    for dt in (np.float32, np.float64):
+        other = np.float64 if dt == np.float32 else np.float32
+        for shape in ((), (1,), (2,), (1, 1)):
+            for n in range(1, maxlen + 1):
+                for hist in itertools.product(alphabet, repeat=n):
+                    x = Tensor(np.full(shape, 1.5, dtype=dt), requires_grad=True)
+                    acc = np.zeros(shape)
+                    key = {"dtype": np.dtype(dt).name, "shape": list(shape), "history": list(hist)}
+                    for step, ev in enumerate(hist):
+                        try:
+                            if ev == "root":
+                                x.backward(Tensor(np.ones(shape, dtype=dt))) if shape != () else x.backward()
+                                acc = acc + 1
+                            elif ev == "root_g_other":
+                                x.backward(Tensor(np.full(shape, 0.5, dtype=other)))
+                                acc = acc + 0.5
+                            elif ev in ("bw", "bw_other"):
+                                w = Tensor(np.full(shape, 2.0, dtype=dt if ev == "bw" else other))
+                                (x * w).sum().backward()
+                                acc = acc + 2.0
+                            else:
+                                x.zero_()
+                                acc = np.zeros(shape)
+                        except Exception as e:
+                            run.violation("leaf_root_history.completes", "event %d (%s) raised %s: %s" % (step, ev, type(e).__name__, e), key={**key, "step": step}, replay=key)
+                            break
+                        run.rt(("leaf-root-history", np.dtype(dt).name, shape, hist, step))
+                        g = x._grad
+                        if g is None or np.asarray(g).dtype != dt or np.asarray(g).shape != shape or not np.allclose(np.asarray(g), acc):
+                            run.violation("Tensor.backward.grad_has_tensor_dtype_and_shape", "after %s the %s leaf of shape %s holds .grad %s" %
+                                          (list(hist[:step + 1]), np.dtype(dt).name, shape, "None" if g is None else "%s%s = %s (expected %s)" % (np.asarray(g).dtype, np.asarray(g).shape, np.asarray(g).tolist(), acc.tolist())),
+                                          key={**key, "step": step, "event": ev}, replay=key)
+                            break
+
+
 OFFSETS = np.array([0.0, -150.0, -400.0, -30.0, -95.0, -12.0])
 
 
@@ -642,6 +684,7 @@ def main(tier="quick", seed=0, procs=None, only=None):
         run.error("deductive part failed", e)
     guarded(run, "stateful layer histories", layer_histories, run, seed)
     guarded(run, "gradient-buffer histories", grad_histories, run, seed, tier)
+    guarded(run, "leaf-root histories", leaf_root_histories, run, seed, tier)
     guarded(run, "upstream gradients of broadcastable shapes", upstream_shape_part, run, seed)
     run.rule = ("one evaluation = one clause (result_dtype | grad_shape | grad_dtype per leaf | root grad_shape/grad_dtype | backward_completes | float32_float64_agree) on one "
                 "(api form, pattern, operand kinds, operand dtype assignment, upstream dtype); all are distinct")
